@@ -69,6 +69,9 @@ def cases(tier, seed):
     # a field switched on from exactly zero (in one gauge the potential is identically zero at t = 0, in the other it is not)
     for d, scr in itertools.product(devs[:1] if quick else devs[:2], (False, True)):
         out.append(dict(fam="run", dev=d, biased=False, screening=scr, shift=[2.5, -1.5], ramp=4.0, from_zero=True))
+    # thermalisation first: the recorded stage restarts step counter and clock on a solver whose operators hold the last potential
+    for d, shift, (ramp, fz) in itertools.product(devs[:1] if quick else devs[:2], ((40.0, 25.0), (2.5, -1.5)), ((0.5, False), (4.0, True))):
+        out.append(dict(fam="run", dev=d, biased=False, screening=False, shift=list(shift), ramp=ramp, from_zero=fz, thermal=True))
     return out
 
 
@@ -210,7 +213,7 @@ def run_run(case):
     def opts(path, steps):
         return tdgl.SolverOptions(solve_time=steps * dt, dt_init=dt, dt_max=dt, adaptive=False, save_every=1, output_file=path,
                                   include_screening=case["screening"], screening_tolerance=1e-6, max_iterations_per_step=5000,
-                                  progress_interval=10**9)
+                                  progress_interval=10**9, skip_time=(3 * dt if case.get("thermal") and steps else 0.0))
 
     def run(x0, y0, tag):
         if case.get("ramp"):
